@@ -135,7 +135,22 @@ func (e *FnExec) assumeRequires(st *State) {
 type locItem struct {
 	class, sort string
 	loc         *Term // exact location, or
-	rootOf      *Term // every location inside this object
+	rootOf      *Term // every location inside this object, or
+	arr         *Term // every element leaf (with field chain sub) of this array location
+	sub         []int
+}
+
+// elemLeafOf: l is the leaf (field chain sub) of some element of the array at arr; also
+// returns the element index.
+func elemLeafOf(l, arr *Term, sub []int) (*Term, *Term) {
+	conds := []*Term{Eq(Root(l), Root(arr))}
+	p := PathOf(l)
+	for i := len(sub) - 1; i >= 0; i-- {
+		conds = append(conds, App("(_ is pfld)", "Bool", p), Eq(App("pfid", "Int", p), IntLit(int64(sub[i]))))
+		p = App("ppar", "Path", p)
+	}
+	conds = append(conds, App("(_ is pidx)", "Bool", p), Eq(App("ppar2", "Path", p), PathOf(arr)))
+	return And(conds...), App("pix", "Int", p)
 }
 
 func (env *SpecEnv) leafItems(loc *Term, t types.Type, out *[]locItem) {
@@ -147,11 +162,33 @@ func (env *SpecEnv) leafItems(loc *Term, t types.Type, out *[]locItem) {
 		return
 	}
 	if a, ok := t.Underlying().(*types.Array); ok {
-		env.leafRoot(Root(loc), a.Elem(), out)
+		env.leafElems(loc, a.Elem(), out)
 		return
 	}
 	c, s := memClass(t)
 	*out = append(*out, locItem{class: c, sort: s, loc: loc})
+}
+
+// leafElems: all element leaves of the array at arr.
+func (env *SpecEnv) leafElems(arr *Term, t types.Type, out *[]locItem) {
+	var rec func(t types.Type, sub []int)
+	rec = func(t types.Type, sub []int) {
+		t = types.Unalias(t)
+		if si := structOf(t); si != nil {
+			for i := 0; i < si.typ.NumFields(); i++ {
+				rec(si.typ.Field(i).Type(), append(append([]int{}, sub...), si.fids[i]))
+			}
+			return
+		}
+		if _, ok := t.Underlying().(*types.Array); ok {
+			// nested arrays: fall back to the whole object
+			env.leafRoot(Root(arr), t, out)
+			return
+		}
+		c, s := memClass(t)
+		*out = append(*out, locItem{class: c, sort: s, arr: arr, sub: sub})
+	}
+	rec(t, nil)
 }
 
 func (env *SpecEnv) leafRoot(root *Term, t types.Type, out *[]locItem) {
@@ -184,7 +221,7 @@ func (env *SpecEnv) modItems(c *Clause) (items []locItem, err error) {
 				if !ok {
 					env.fail("elems() needs a slice")
 				}
-				env.leafRoot(Root(SArr(s)), sl.Elem(), &items)
+				env.leafElems(SArr(s), sl.Elem(), &items)
 				continue
 			case "map":
 				m, mt := env.tr(a.Args[1])
@@ -216,9 +253,13 @@ func inItems(l *Term, class string, items []locItem) *Term {
 		if it.class != class {
 			continue
 		}
-		if it.loc != nil {
+		switch {
+		case it.loc != nil:
 			ds = append(ds, Eq(l, it.loc))
-		} else {
+		case it.arr != nil:
+			c, _ := elemLeafOf(l, it.arr, it.sub)
+			ds = append(ds, c)
+		default:
 			ds = append(ds, Eq(Root(l), it.rootOf))
 		}
 	}
@@ -374,7 +415,18 @@ func (e *FnExec) call(st *State, instr ssa.Instruction, c *ssa.CallCommon, res s
 	}
 	var con *Contract
 	if key != "" {
-		con = e.P.cs.Funcs[key]
+		for _, a := range c.Args {
+			if mi, ok := a.(*ssa.MakeInterface); ok {
+				if sc := e.P.cs.Funcs[key+"@"+typeKeyNoArgs(mi.X.Type())]; sc != nil {
+					key = key + "@" + typeKeyNoArgs(mi.X.Type())
+					con = sc
+					break
+				}
+			}
+		}
+		if con == nil {
+			con = e.P.cs.Funcs[key]
+		}
 	}
 	if con == nil {
 		// dynamic closure with known target?
@@ -414,6 +466,7 @@ func (e *FnExec) uncontractedCall(st *State, key string, c *ssa.CallCommon, res 
 func (e *FnExec) applyContract(st *State, key string, con *Contract, sig *types.Signature, c *ssa.CallCommon, args []*Term, res ssa.Value, pos token.Pos, guard *Term) {
 	pkg := e.P.typesPkg(con.PkgPath)
 	env := &SpecEnv{e: e, cur: st, old: nil, vars: map[string]specVar{}, pkg: pkg}
+	env.vars["callid"] = specVar{Fresh("callid", "Int"), types.Typ[types.Int]}
 	// bind names
 	i := 0
 	if sig.Recv() != nil {
@@ -479,9 +532,47 @@ func (e *FnExec) applyContract(st *State, key string, con *Contract, sig *types.
 				}
 				items = append(items, its...)
 			}
+			var havocked []*Term
+			defer func() {
+				for _, hv := range havocked {
+					if hv.Sort == "Loc" {
+						e.addFact(st, Lt(Root(hv), st.ctr))
+					} else {
+						e.addFact(st, And(Lt(Root(SArr(hv)), st.ctr), Le(IntLit(0), SLen(hv)), Le(SLen(hv), SCap(hv)), Le(IntLit(0), SOff(hv))))
+					}
+				}
+			}()
 			classes := map[string]string{}
 			for _, it := range items {
 				classes[it.class] = it.sort
+			}
+			for _, li := range e.loops {
+				if li.framed && li.blocks[e.curBlock] {
+					for _, it := range items {
+						var g *Term
+						if it.loc != nil {
+							g = inItems(it.loc, it.class, li.items)
+						} else {
+							var ds []*Term
+							for _, lit := range li.items {
+								if lit.class != it.class {
+									continue
+								}
+								if lit.rootOf != nil && it.rootOf != nil {
+									ds = append(ds, Eq(lit.rootOf, it.rootOf))
+								}
+								if lit.rootOf != nil && it.arr != nil {
+									ds = append(ds, Eq(lit.rootOf, Root(it.arr)))
+								}
+								if lit.arr != nil && it.arr != nil {
+									ds = append(ds, Eq(lit.arr, it.arr))
+								}
+							}
+							g = Or(ds...)
+						}
+						e.assert(st, "loop-frame", Imp(guard, g), pos, fmt.Sprintf("frame of callee %s stays inside the frame declared for loop %d", shortType(key), li.ordinal), fmt.Sprintf("loop%d", li.ordinal))
+					}
+				}
 			}
 			if e.P.modClasses[key] == nil {
 				e.P.modClasses[key] = classes
@@ -500,11 +591,19 @@ func (e *FnExec) applyContract(st *State, key string, con *Contract, sig *types.
 					nw = old
 					for _, it := range items {
 						if it.class == cl {
-							nw = Store(nw, it.loc, Fresh("hv", arrayElemSort(sort)))
+							hv := Fresh("hv", arrayElemSort(sort))
+							switch hv.Sort {
+							case "Loc":
+								e.addFact(st, Lt(Root(hv), Add(st.ctr, IntLit(1<<30))))
+								havocked = append(havocked, hv)
+							case "Slice":
+								havocked = append(havocked, hv)
+							}
+							nw = Store(nw, it.loc, hv)
 						}
 					}
 				} else {
-					nw = Fresh("hv_"+cl, sort)
+					nw = e.freshMem(st, "hv_"+cl, sort)
 					l := BVar("l", "Loc")
 					es := arrayElemSort(sort)
 					e.addFact(st, Forall([]*Term{l}, Imp(Not(inItems(l, cl, items)), Eq(App("select", es, nw, l), App("select", es, old, l)))))
@@ -651,7 +750,7 @@ func (e *FnExec) builtin(st *State, b *ssa.Builtin, c *ssa.CallCommon, res ssa.V
 
 func (e *FnExec) appendBuiltin(st *State, c *ssa.CallCommon, res ssa.Value) {
 	s := e.term(st, c.Args[0])
-	if sortOf(c.Args[1].Type()) == "String" {
+	if sortOf(c.Args[1].Type()) == StrSort {
 		// append([]byte, string...)
 		t := e.term(st, c.Args[1])
 		n := Add(SLen(s), strLen(t))
@@ -661,7 +760,7 @@ func (e *FnExec) appendBuiltin(st *State, c *ssa.CallCommon, res ssa.Value) {
 		e.note("append([]byte, string...): element contents abstracted")
 		if sl, ok := c.Args[0].Type().Underlying().(*types.Slice); ok {
 			cl, so := memClass(sl.Elem())
-			e.setMem(st, cl, so, Fresh("hv_"+cl, so))
+			e.setMem(st, cl, so, e.freshMem(st, "hv_"+cl, so))
 		}
 		e.set(res, r)
 		return
@@ -670,6 +769,9 @@ func (e *FnExec) appendBuiltin(st *State, c *ssa.CallCommon, res ssa.Value) {
 	sl := c.Args[0].Type().Underlying().(*types.Slice)
 	n := Add(SLen(s), SLen(t))
 	fits := Le(n, SCap(s))
+	if fits != True && fits != False {
+		e.branchAtoms = append(e.branchAtoms, fits)
+	}
 	// Appending nothing returns s unchanged.
 	newArr := e.alloc(st)
 	newCap := Fresh("newcap", "Int")
@@ -724,7 +826,7 @@ func (e *FnExec) appendBuiltin(st *State, c *ssa.CallCommon, res ssa.Value) {
 		e.note("append of a slice of unknown length: element contents abstracted")
 		e.eachScalar(sl.Elem(), nil, func(_ []int, lt types.Type) {
 			cl, so := memClass(lt)
-			e.setMem(st, cl, so, Fresh("hv_"+cl, so))
+			e.setMem(st, cl, so, e.freshMem(st, "hv_"+cl, so))
 		})
 	}
 	e.set(res, r)
@@ -755,11 +857,11 @@ func (e *FnExec) copyBuiltin(st *State, c *ssa.CallCommon, res ssa.Value) {
 	dst := e.term(st, c.Args[0])
 	sl := c.Args[0].Type().Underlying().(*types.Slice)
 	var n *Term
-	if sortOf(c.Args[1].Type()) == "String" {
+	if sortOf(c.Args[1].Type()) == StrSort {
 		src := e.term(st, c.Args[1])
 		n = Ite(Le(SLen(dst), strLen(src)), SLen(dst), strLen(src))
 		cl, so := memClass(sl.Elem())
-		e.setMem(st, cl, so, Fresh("hv_"+cl, so))
+		e.setMem(st, cl, so, e.freshMem(st, "hv_"+cl, so))
 		e.note("copy([]byte, string): element contents abstracted")
 	} else {
 		src := e.term(st, c.Args[1])
@@ -776,7 +878,15 @@ func (e *FnExec) copyBuiltin(st *State, c *ssa.CallCommon, res ssa.Value) {
 			// copied range
 			e.addFact(st, Forall([]*Term{i}, Imp(And(Le(IntLit(0), i), Lt(i, n)), Eq(App("select", es, nw, dloc(i)), App("select", es, old, sloc(i))))))
 			// everything else unchanged: other objects, and cells of dst's array outside the range
-			e.addFact(st, Forall([]*Term{l}, Imp(Neq(Root(l), Root(SArr(dst))), Eq(App("select", es, nw, l), App("select", es, old, l)))))
+			var subf []int
+			probe := sub(BVar("probe", "Loc"))
+			for pp := PathOf(probe); pp.Op == "app" && pp.Name == "pfld"; pp = pp.Args[0] {
+				if c, ok := pp.Args[1].IsInt(); ok {
+					subf = append([]int{int(c.Int64())}, subf...)
+				}
+			}
+			isEl, _ := elemLeafOf(l, SArr(dst), subf)
+			e.addFact(st, Forall([]*Term{l}, Imp(Not(isEl), Eq(App("select", es, nw, l), App("select", es, old, l)))))
 			e.addFact(st, Forall([]*Term{i}, Imp(Or(Lt(i, IntLit(0)), Le(n, i)), Eq(App("select", es, nw, dloc(i)), App("select", es, old, dloc(i))))))
 			e.setMem(st, cl, so, nw)
 		})
